@@ -96,7 +96,13 @@ pub fn diff(c: &SeqCase, opts: DiffOpts) -> DiffOut {
       c.case.show()
     ));
   }
-  if opts.check_factories && rep.fail.is_none() && m.factory_calls != r.log.factory_calls {
+  // factory calls are only compared where no operator may legitimately decide not to
+  // subscribe an input at all (amb once a winner exists, merge / zip / gates after an early
+  // synchronous end): DESIGN.md 2.5, "subscription counts"
+  let may_skip_inputs = c.case.root.has_op(&|n| {
+    matches!(n, Node::Nary(Comb::Amb, _) | Node::Nary(Comb::Merge, _) | Node::Nary(Comb::Zip, _) | Node::Nary(Comb::CombineLatest, _) | Node::Nary(Comb::SequenceEqual, _) | Node::Gate(_, _, _))
+  });
+  if opts.check_factories && !may_skip_inputs && rep.fail.is_none() && m.factory_calls != r.log.factory_calls {
     rep.fail = Some(format!(
       "defer/start factories were called {:?} times (id, calls), reference {:?} | {}",
       r.log.factory_calls,
